@@ -417,8 +417,13 @@ def gen_c11(seed, tier='quick', opts=None):
             if g.chance(0.08):
                 op['cal'] = {'owner': g.pick([str(g.pick(peers)), 'u%d' % g.pick(UIDS[:nusers])])}
             if g.chance(0.05):
-                op['abort'] = True
-                op['linger'] = round(g.uni(0.0, 0.01), 4)
+                # hang up without reading the replies (only when the request
+                # names every UID once: what such a request did is read off
+                # the daemon's watcher starts, which name UIDs)
+                us = [tasks[i]['spec']['uid'] for i in tids]
+                if len(set(us)) == len(us):
+                    op['abort'] = True
+                    op['linger'] = round(g.uni(0.0, 0.01), 4)
             ops.append(op)
         elif kind == 'cancel':
             n = g.wpick([(1, 5), (2, 1), (3, 0.5)])
